@@ -26,6 +26,10 @@ CHECKS = {
    text="all histories up to length 5 (thorough 6) over a 10-operation alphabet are enumerated and long random histories sampled against the real registry under the simulated clock, compared after every step with an expiry reference model",
    note="trusted: synctest fake clock; the reference model (30 lines) written from the property text; ages within 1 ms of a threshold are don't-cares",
    tech=TECH + " (simulated clock, history enumeration + seeded search, reference model)"),
+ "C17": dict(cat="fault_enumeration", ref="5 C17",
+   text="all single faults: outcome class (no registration, no transport, found via min/prefix/obfs4, transport error) x client family (IPv4, IPv6, v4-mapped) x 17 operation sites on the client connection, the dial and the covert connection x every error shape of that operation; pairs of faults and registration-path events sampled; everything the process writes to stdout/stderr/std logger is captured and searched for every textual form of the client address",
+   note="trusted: simnet's error shapes mirror the net package's (OpError text with both endpoints); the capture redirects os.Stdout/os.Stderr before any logger is created; statistics printers are exercised under C19, not here",
+   tech=TECH + " (fault enumeration over I/O call sites x error shapes with log capture)"),
  "C20": dict(cat="fault_enumeration", ref="5 C20", engine="ptracefi",
    text="a real child process built from the current pkg/client/assets performs seeded store sequences under ptrace; for a fixed set of sequences every file-system syscall stop point is enumerated with kill-at-entry, kill-at-exit, torn write + kill, each errno and short write; the directory is then loaded by a fresh process and compared byte-for-byte with the old/new configuration, and the in-memory rollback is checked",
    note="trusted: the ptrace tracer's syscall classification (x86-64), determinism of the child's file-system syscall sequence (verified per sequence by three reference runs); power loss / page-cache durability is not modelled (the property speaks of process crash, kill or write failure)",
